@@ -132,13 +132,19 @@ func (x *Exec) model(st *State, fr *Frame, dst ssa.Value, callee *ssa.Function, 
 		k := x.site(st, "wgadd")
 		x.oblige(st, "nopanic", fmt.Sprintf("nopanic:waitgroup-negative@add#%d", k), Ge(nv, IntLit(0)), pos, "")
 		st.setGhostArr("wg", Store(wg, r, nv))
+		mine := st.ghostArr("wgmine", SInt)
+		st.setGhostArr("wgmine", Store(mine, r, Add(Select(mine, r), args[1].Term)))
 	case "(*sync.WaitGroup).Done":
 		r := x.refOf(args[0])
 		wg := st.ghostArr("wg", SInt)
 		x.siteAsserts(st, fr, "wgdone:"+x.argPath(fr, 0), pos)
 		k := x.site(st, "wgdone")
-		x.oblige(st, "nopanic", fmt.Sprintf("nopanic:waitgroup-negative@done#%d", k), Gt(Select(wg, r), IntLit(0)), pos, "")
+		mine := st.ghostArr("wgmine", SInt)
+		// Done() needs a token this thread owns: otherwise the counter may go negative (panic)
+		x.oblige(st, "nopanic", fmt.Sprintf("nopanic:waitgroup-negative@done#%d", k), Gt(Select(mine, r), IntLit(0)), pos, "")
+		st.Assume(Gt(Select(wg, r), IntLit(0)))
 		st.setGhostArr("wg", Store(wg, r, Sub(Select(wg, r), IntLit(1))))
+		st.setGhostArr("wgmine", Store(mine, r, Sub(Select(mine, r), IntLit(1))))
 	case "(*sync.WaitGroup).Wait":
 		r := x.refOf(args[0])
 		x.siteAsserts(st, fr, "wgwait:"+x.argPath(fr, 0), pos)
@@ -449,7 +455,8 @@ func (x *Exec) interfere(st *State, why string) {
 		wg := st.ghostArr("wg", SInt)
 		nwg := Fresh("if$wg", ArrSort(SInt, SInt))
 		w := BoundVar("w", SInt)
-		st.Assume(Forall([]*Term{w}, Ge(Select(nwg, w), IntLit(0))))
+		mine := st.ghostArr("wgmine", SInt)
+		st.Assume(Forall([]*Term{w}, And(Ge(Select(nwg, w), IntLit(0)), Ge(Select(nwg, w), Select(mine, w)))))
 		for _, fr := range st.FreshList {
 			nwg = Store(nwg, fr, Select(wg, fr))
 		}
@@ -740,6 +747,8 @@ func (x *Exec) rangeInit(st *State, fr *Frame, i *ssa.Range) {
 	it := &RangeIter{ID: id, Map: xv, KeySort: ks, Visited: fmt.Sprintf("G$visited$%d", id)}
 	regSort(it.Visited, ArrSort(ks, SBool))
 	st.Heap[it.Visited] = ConstArr(ArrSort(ks, SBool), False)
+	regSort(it.Visited+"$n", SInt)
+	st.Heap[it.Visited+"$n"] = IntLit(0)
 	st.LiveIters = append(st.LiveIters[:len(st.LiveIters):len(st.LiveIters)], it)
 	fr.Regs[i] = &Val{T: i.Type(), Iter: it}
 }
@@ -766,6 +775,7 @@ func (x *Exec) rangeNext(st *State, fr *Frame, i *ssa.Next) {
 	done := x.fork(st)
 	kb := BoundVar("k", it.KeySort)
 	done.Assume(Forall([]*Term{kb}, Implies(And(Neq(m, IntLit(0)), done.mapHas(mt, m, kb)), Select(vis, kb))))
+	done.Assume(Eq(done.heapGet(it.Visited+"$n", SInt), Ite(Eq(m, IntLit(0)), IntLit(0), done.mapLen(m))))
 	done.Trace = append(done.Trace, "range: done")
 	done.Top().Regs[i] = &Val{T: i.Type(), Fields: []*Val{boolVal(False), zeroVal(mt.Key()), zeroVal(mt.Elem())}}
 	// next element
@@ -774,6 +784,8 @@ func (x *Exec) rangeNext(st *State, fr *Frame, i *ssa.Next) {
 	st.Assume(st.mapHas(mt, m, k))
 	st.Assume(Not(Select(vis, k)))
 	st.Heap[it.Visited] = Store(vis, k, True)
+	st.Heap[it.Visited+"$n"] = Add(st.heapGet(it.Visited+"$n", SInt), IntLit(1))
+	st.Assume(Le(st.Heap[it.Visited+"$n"], st.mapLen(m)))
 	v := st.mapVal(mt, m, k)
 	st.assumeValAllocated(v)
 	st.Trace = append(st.Trace, "range: next")
